@@ -82,7 +82,7 @@ pub fn encoders_sane(ctx: &mut Ctx, church_to: usize, small_to: usize, binary_to
 pub fn c13(ctx: &mut Ctx) {
     encoders_sane(ctx, 600, 0, 0);
     use lambda_calculus::data::num::church::*;
-    let g = if ctx.thorough { 7usize } else { 4 };
+    let g = if ctx.thorough { 9usize } else { 4 };
     let ch = |n: usize| n.into_church();
     // unary
     for n in 0..=(g + 2) {
@@ -146,7 +146,7 @@ fn c13_sparse(ctx: &mut Ctx) {
     let ch = |n: usize| n.into_church();
     let mut pairs: Vec<(usize, usize)> = vec![(7, 3), (9, 2), (12, 5), (8, 8), (10, 1), (6, 11), (13, 4), (3, 9), (16, 7), (11, 0), (0, 9)];
     if ctx.thorough {
-        for _ in 0..60 {
+        for _ in 0..150 {
             pairs.push((ctx.rng.below(22), ctx.rng.below(22)));
         }
     }
@@ -247,7 +247,7 @@ pub fn c14(ctx: &mut Ctx) {
         let mut ns: Vec<usize> = vec![9, 11, 12];
         let mut pairs: Vec<(usize, usize)> = vec![(7, 5), (3, 9), (8, 4), (10, 2), (6, 6)];
         if ctx.thorough {
-            for _ in 0..12 {
+            for _ in 0..30 {
                 ns.push(8 + ctx.rng.below(5));
                 pairs.push((ctx.rng.below(8), ctx.rng.below(6)));
             }
@@ -285,7 +285,7 @@ pub fn c14(ctx: &mut Ctx) {
         }
     }
     // binary
-    let top = if ctx.thorough { 130usize } else { 34 };
+    let top = if ctx.thorough { 1000usize } else { 34 };
     for n in 0..top {
         let strip = |t: Term| app(binary::strip(), t);
         check_prog(ctx, &format!("binary is_zero {}", n), &app(binary::is_zero(), bi(n)), &b(n == 0), &ALL4);
